@@ -181,6 +181,30 @@ pub mod thread {
     struct Fin(Arc<AtomicBool>);
     impl Drop for Fin { fn drop(&mut self) { self.0.store(true, Ordering::SeqCst); } }
 
+    /// (execution epoch, live named threads, peak of live named threads): the scheduler's pool threads are the named ones
+    static NAMED: std::sync::Mutex<(u64, usize, usize)> = std::sync::Mutex::new((0, 0, 0));
+    fn named_started() -> u64 {
+        let e = super::EPOCH.load(Ordering::SeqCst);
+        let mut n = match NAMED.lock() { Ok(n) => n, Err(p) => p.into_inner() };
+        if n.0 != e { *n = (e, 0, 0); }
+        n.1 += 1;
+        if n.1 > n.2 { n.2 = n.1; }
+        e
+    }
+    fn named_ended(e: u64) {
+        let mut n = match NAMED.lock() { Ok(n) => n, Err(p) => p.into_inner() };
+        if n.0 == e && n.1 > 0 { n.1 -= 1; }
+    }
+    /// Named threads started through the shim in this execution that have not ended yet, and the largest value this has had
+    pub fn live_named_threads() -> (usize, usize) {
+        let e = super::EPOCH.load(Ordering::SeqCst);
+        let n = match NAMED.lock() { Ok(n) => n, Err(p) => p.into_inner() };
+        if n.0 == e { (n.1, n.2) } else { (0, 0) }
+    }
+    /// Decrements the live count when the thread's closure ends, normally or by unwinding
+    struct Named(Option<u64>);
+    impl Drop for Named { fn drop(&mut self) { if let Some(e) = self.0 { named_ended(e); } } }
+
     pub struct Builder { name: Option<String> }
 
     impl Builder {
@@ -192,6 +216,7 @@ pub mod thread {
             let fin     = Arc::new(AtomicBool::new(false));
             let fin2    = Fin(fin.clone());
             let mut b   = rt::thread::Builder::new();
+            let named   = Named(if self.name.is_some() { Some(named_started()) } else { None });
             if let Some(n) = self.name { b = b.name(n); }
             #[cfg(desync_verif_real)]
             let task    = super::NEXT_REAL_TASK.fetch_add(1, Ordering::SeqCst);
@@ -200,6 +225,7 @@ pub mod thread {
                 super::REAL_TASK.with(|t| t.set(task));
                 let r = std::panic::catch_unwind(std::panic::AssertUnwindSafe(f));
                 if r.is_err() { PANICKED_THREADS.fetch_add(1, Ordering::SeqCst); }
+                drop(named);
                 drop(fin2);
                 r
             })?;
